@@ -124,7 +124,28 @@ def run(ctx) -> None:
             return None
         at = cfg.node(s_)
 
+        def counts_selected(nm: str) -> bool:
+            """`nm` starts at 0 and is incremented by one exactly next to every `sel.append(...)` (a running len(sel))"""
+            asg = [x for x in ast.walk(f.node) if isinstance(x, ast.Assign) and any(isinstance(t_, ast.Name) and t_.id == nm for t_ in x.targets)]
+            aug = [x for x in ast.walk(f.node) if isinstance(x, ast.AugAssign) and isinstance(x.target, ast.Name) and x.target.id == nm]
+            apps = [x for x in ast.walk(f.node) if isinstance(x, ast.Expr) and isinstance(x.value, ast.Call) and isinstance(x.value.func, ast.Attribute)
+                    and x.value.func.attr == "append" and norm(x.value.func.value) == sel]
+            if len(asg) != 1 or const_of(asg[0].value) != 0 or not aug or len(aug) != len(apps):
+                return False
+            for a_ in aug:
+                if not (isinstance(a_.op, ast.Add) and const_of(a_.value) == 1):
+                    return False
+                blk_ = next((b_ for n_ in ast.walk(f.node) for b_ in (getattr(n_, "body", None), getattr(n_, "orelse", None)) if isinstance(b_, list) and a_ in b_), None)
+                if blk_ is None:
+                    return False
+                i_ = blk_.index(a_)
+                if not any(0 <= j_ < len(blk_) and blk_[j_] in apps for j_ in (i_ - 1, i_ + 1)):
+                    return False
+            return True
+
         def kind_of(e):
+            if isinstance(e, ast.Name) and counts_selected(e.id):
+                return "sel"
             r_ = S.resolve(e, at)
             t_ = norm(r_)
             if t_ in SEL_FORMS:
@@ -290,6 +311,18 @@ def run(ctx) -> None:
                 size_ok, mgn = True, norm(s_.targets[0].value)
             elif norm(s_.value) == f"{kname}.denominator":
                 size_ok, mgn = True, norm(s_.targets[0].value)
+    if not size_ok:
+        # sizes collected direction by direction in a list that becomes the mesh: L.append(kmin.denominator) / L.append(1); MG = np.array(L)
+        apps = [c_ for c_ in ast.walk(h.node) if isinstance(c_, ast.Call) and isinstance(c_.func, ast.Attribute) and c_.func.attr == "append" and len(c_.args) == 1
+                and isinstance(c_.func.value, ast.Name)]
+        lists_ = {c_.func.value.id for c_ in apps if norm(c_.args[0]) == f"{kname}.denominator"}
+        for L_ in lists_:
+            vals_ = {norm(c_.args[0]) for c_ in apps if c_.func.value.id == L_}
+            if vals_ <= {f"{kname}.denominator", "1"}:
+                for s_ in stmts(gm.node):
+                    if isinstance(s_, ast.Assign) and isinstance(s_.targets[0], ast.Name) and isinstance(s_.value, ast.Call) \
+                            and call_name(s_.value) in ("np.array", "np.asarray", "tuple", "list") and s_.value.args and norm(s_.value.args[0]) == L_:
+                        size_ok, mgn = True, s_.targets[0].id
     if not size_ok and h is not gm:
         hrets = [s_ for s_ in ast.walk(h.node) if isinstance(s_, ast.Return) and s_.value is not None]
         if hrets and {norm(r_.value) for r_ in hrets} <= {f"{kname}.denominator", "1"} and any(norm(r_.value) == f"{kname}.denominator" for r_ in hrets):
